@@ -126,6 +126,9 @@ def after_cases(tier):
                             if fname.startswith("int-view") and si:
                                 continue
                             items.append((list(p) + [consumer], si, fname))
+                            if consumer.startswith("L = (t * t") and fname in ("setitem-shape", "iop-shape", "out-where-shape") and si:
+                                # ... and a NEW view of the base is taken after the backward pass: the base lists it, no longer the old views
+                                items.append((list(p) + [consumer, "#NEWVIEW"], si, fname))
         if tier == "quick":
             items = items[::2]
         for i in range(0, len(items), 60):
@@ -162,14 +165,17 @@ def run_after(mg, base, prog, si, fname, res):
         T["BADMASK"] = np.ones(7, dtype=bool)
         T["IT"] = mg.Tensor(np.array([1, 2, 3]))
         for ln in prog:
-            vp.run_line(ln, T)
+            if not ln.startswith("#"):
+                vp.run_line(ln, T)
         T["L"].backward()
+        if "#NEWVIEW" in prog:
+            T["u"] = T["t"][1:]
         T["ITV"] = T["IT"][:2]
         T["ITV"].backward()
         names = sorted(vp.live_tensors(T, mg)) + ["IT", "ITV"]
         raised = None
         if with_failure:
-            tnames = ["t"] + [l.split(" = ")[0] for l in prog[:-1]]
+            tnames = ["t"] + [l.split(" = ")[0] for l in prog if " = " in l and not l.startswith("L =")]
             s_ = tnames[si]
             try:
                 vp.run_line(ftpl.format(s=s_, t=s_), T)
@@ -226,12 +232,14 @@ def run(fail):
     T = {"mg": mg, "np": np, "t": mg.Tensor(rng.rand(*%r) + 0.5), "y0": mg.Tensor(1.25), "yv": mg.Tensor(rng.rand(%d) + 0.5), "y2": mg.Tensor(rng.rand(2) + 0.5),
          "k": np.array(0.75), "c1": np.array(2.5), "c2": np.array(1.5), "q": [np.array(1.5), np.array(2.5), np.array(3.5)],
          "BAD7": np.ones(7), "BAD7M": mg.Tensor(np.ones(7)), "BADMASK": np.ones(7, dtype=bool), "IT": mg.Tensor(np.array([1, 2, 3]))}
-    for ln in PROG: exec(ln, T)
+    for ln in PROG:
+        if not ln.startswith("#"): exec(ln, T)
     T["L"].backward()
+    if "#NEWVIEW" in PROG: T["u"] = T["t"][1:]
     T["ITV"] = T["IT"][:2]; T["ITV"].backward()
     raised = []
     if fail:
-        s = (["t"] + [l.split(" = ")[0] for l in PROG[:-1]])[SI]
+        s = (["t"] + [l.split(" = ")[0] for l in PROG if " = " in l and not l.startswith("L =")])[SI]
         try: exec(FTPL.format(s=s, t=s), T)
         except Exception as e: raised.append(type(e).__name__)
     s1 = snap(T)
